@@ -183,9 +183,15 @@ def impl(case):
         elif op[0] == 'rebuild':
             same = (mh.LumpedStateTraj(obj) is obj) if case['lumped'] else True
             reads.append(['rebuild', {'t': 'bool', 'v': bool(mh.StateTraj(obj) is obj and same)}])
-    private = list(obj._trajs) + [obj._states]
-    if case['lumped']:
-        private += [obj._macrostates, obj._state_assignment]
+    hook_local = None
+    try:
+        private = list(obj._trajs) + [obj._states]
+        if case['lumped']:
+            private += [obj._macrostates, obj._state_assignment]
+    except AttributeError as exc:
+        # the private slots the aliasing probe looks into were renamed: the probe is skipped
+        # (reported once as broken correspondence), everything observable is still compared
+        private, hook_local = [], 'private slot of StateTraj: %s' % str(exc)[:120]
     alias = []
     outside = returned + arg_arrays()
     for i, p in enumerate(private):
@@ -196,7 +202,10 @@ def impl(case):
         for j in range(i + 1, len(returned)):
             if returned[i] is not returned[j] and np.shares_memory(returned[i], returned[j]):
                 alias.append(['returned%d' % i, 'returned%d' % j])
-    return {'reads': reads, 'alias': alias}
+    out = {'reads': reads, 'alias': alias}
+    if hook_local:
+        out['hook_local'] = hook_local
+    return out
 
 
 def requests(case):
@@ -283,6 +292,8 @@ def judge(case, ibc, answers):
         if 'err' in r:
             P('impl-vs-spec', 'raised %s: %s' % (r['err'], r.get('msg')))
             continue
+        if r.get('hook_local'):
+            P('correspondence', 'instrumented private helper no longer matches: %s' % r['hook_local'])
         for k, (name, val) in enumerate(r['reads']):
             got = _vals(val)
             if got != e[name]:
